@@ -18,6 +18,19 @@ def type_text(t):
     return t.express().lower() if not isinstance(t, smodel.Named) else t.name.lower()
 
 
+def aggr_struct(fam, t):
+    """the structure dictdump prints for an aggregate type (S lines, struct=)"""
+    if isinstance(t, smodel.Named):
+        td = fam.tmap()[0].get(t.name)
+        if td is not None and isinstance(td.body, smodel.Aggr):
+            return aggr_struct(fam, td.body)
+        return '/' + t.name.lower()
+    if isinstance(t, smodel.Aggr):
+        return '%s[%s:%s]u%do%d' % (t.kind.lower(), t.lo if t.lo is not None else 0, t.hi if t.hi is not None else UNB, 1 if t.unique else 0,
+                                    1 if (t.optional and t.kind == 'ARRAY') else 0) + aggr_struct(fam, t.elem)
+    return '/' + t.name.lower()
+
+
 def expected(fam):
     ents = {}
     for e in fam.entities:
@@ -26,7 +39,8 @@ def expected(fam):
             attrs.append((d.name, 'derived', 0, type_text(d.type)))     # a redeclared attribute given in DERIVE is a derived attribute
         ents[e.name] = {'abstract': 1 if e.abstract else 0, 'supers': list(e.supers), 'subs': sorted(fam.subtypes(e.name)), 'attrs': attrs,
                         'inverse': [(v.name, v.entity, v.attr) for v in e.inverse],
-                        'inst': [a.name for _, a, _ in fam.p21_attrs(e.name)]}
+                        'inst': [a.name for _, a, _ in fam.p21_attrs(e.name)],
+                        'struct': {a.name: aggr_struct(fam, a.type) for a in e.attrs if fam.cat(a.type) == 'AGGR'}}
     types = {}
     for t in fam.types:
         b = t.body
@@ -62,6 +76,8 @@ def read_dict(lib, entity_names):
             elif f[0] == 'A':
                 m = re.match(r'A (\S+) (\d+) (\S+) kind=(\S+) opt=(\d) type=(.*) prim=(\d+) aggr=(\d)$', l.decode('latin1'))
                 ents[m.group(1)]['attrs'].append((m.group(3), m.group(4), int(m.group(5)), m.group(6)))
+            elif f[0] == 'S':
+                ents[f[1]].setdefault('struct', {})[f[2].split('.')[-1]] = f[3]
             elif f[0] == 'V':
                 kv = dict(x.split('=', 1) for x in f[4:])
                 ents[f[1]]['inverse'].append((f[3], kv['inv_entity'], kv['inv_attr']))
@@ -120,6 +136,11 @@ def compare(fam, ee, te, eg, tg, inst):
                 if x[3] != y[3]:
                     k = fam.cat(next(a.type for a in fam.tmap()[1][n].attrs if a.name == x[0])) if x[1] == 'explicit' else 'derived'
                     out.append(('attribute-type/%s' % k, '%s.%s: type %r, declared %r' % (n, x[0], x[3], y[3])))
+        for an, st in e.get('struct', {}).items():
+            gs = g.get('struct', {}).get(an)
+            if gs is not None and gs != st:
+                cls = 'unique' if re.sub(r'u\d', 'u', gs) == re.sub(r'u\d', 'u', st) else ('optional' if re.sub(r'o\d', 'o', gs) == re.sub(r'o\d', 'o', st) else 'shape')
+                out.append(('attribute-aggregate/%s' % cls, '%s.%s: aggregate type %s, declared %s' % (n, an, gs, st)))
         if sorted(g['inverse']) != sorted(e['inverse']):
             out.append(('inverse-attributes', '%s: inverse %s, declared %s' % (n, g['inverse'], e['inverse'])))
         gi = inst.get(n)
@@ -226,10 +247,97 @@ def variants(fam):
 
 
 def programs(tier):
-    progs = [smodel.family_K('fam_k', pairs=[('inte', 'stri'), ('ref', 'list_int')], renamed=False), smodel.family_I('fam_i'), family_V()]
+    progs = [smodel.family_K('fam_k', pairs=[('inte', 'stri'), ('ref', 'list_int')], renamed=False), smodel.family_I('fam_i'), family_V(), family_A()]
+    progs += family_D(4, 'fam_d4')
+    # of the five-entity graphs the quick tier keeps those where an entity with several supertypes is itself a supertype, listed second or
+    # later, of another entity with several supertypes (multiple inheritance through multiple inheritance)
+    mi_through_mi = lambda sup: any(len(sup[i]) > 1 and any(len(sup[j]) > 1 for j in sup[i][1:]) for i in range(len(sup)))
+    if tier != 'thorough':
+        progs += family_D(5, 'fam_d5q', only=lambda sup: mi_through_mi(sup) or mi_through_mi(tuple(tuple(reversed(x)) for x in sup)))
     if tier == 'thorough':
         progs.append(smodel.family_K('fam_kr', pairs=[], renamed=True, only=['enum2', 'seldef2', 'inte']))
+        progs += family_D(5, 'fam_d5')
     return progs
+
+
+def family_A():
+    """every aggregate kind x UNIQUE x OPTIONAL (ARRAY only) x {INTEGER, entity}, as a named type and in-line in an attribute, and as the inner
+    dimension of a two-dimensional aggregate"""
+    S, N, A = smodel.Simple, smodel.Named, smodel.Aggr
+    types, ents = [], [smodel.Entity('tg', [smodel.Attr('v', S('INTEGER'))])]
+    attrs = []
+    k = 0
+    for kind in ('ARRAY', 'LIST', 'SET', 'BAG'):
+        for uniq in ((False, True) if kind in ('ARRAY', 'LIST') else (False,)):      # UNIQUE is allowed for ARRAY and LIST only
+            for optl in ((False, True) if kind == 'ARRAY' else (False,)):
+                for bi, base in enumerate((S('INTEGER'), N('tg'))):
+                    lo, hi = (1, 3) if kind == 'ARRAY' else (0, None)
+                    t = A(kind, lo, hi, base, unique=uniq, optional=optl)
+                    nm = 't_%s%s%s_%d' % (kind.lower(), '_u' if uniq else '', '_o' if optl else '', bi)
+                    types.append(smodel.TypeDecl(nm, t))
+                    attrs.append(smodel.Attr('i%d' % k, t))
+                    attrs.append(smodel.Attr('n%d' % k, N(nm), optional=(k % 3 == 0)))
+                    # as inner and as outer dimension
+                    attrs.append(smodel.Attr('x%d' % k, A('LIST', 1, None, t)))
+                    attrs.append(smodel.Attr('y%d' % k, A(kind, lo, hi, A('LIST', 0, 2, base), unique=uniq, optional=optl)))
+                    k += 1
+    # spread over entities of 8 attributes so that one wrong attribute does not hide the others
+    for j in range(0, len(attrs), 8):
+        ents.append(smodel.Entity('holder%d' % (j // 8), attrs[j:j + 8]))
+    return smodel.Schema('fam_a', types, ents)
+
+
+def family_D(n, name, per_schema=60, only=None):
+    """every inheritance graph on n entities e0..e(n-1) (supertypes among the earlier ones, transitively reduced, weakly connected), each entity with
+    one own attribute; entities with several supertypes in both listing orders.  Packed: many graphs (name prefix gK_) per schema."""
+    import itertools
+    S = smodel.Simple
+    graphs = []
+    choices = [[()]]
+    for i in range(1, n):
+        choices.append([c for r in range(0, i + 1) for c in itertools.combinations(range(i), r)])
+    for sup in itertools.product(*choices):
+        anc = []
+        ok = True
+        for i in range(n):
+            a = set()
+            for j in sup[i]:
+                a |= {j} | anc[j]
+            # transitively reduced: no listed supertype is an ancestor of another listed supertype
+            if any(j in anc[k2] for j in sup[i] for k2 in sup[i] if k2 != j):
+                ok = False
+                break
+            anc.append(a)
+        if not ok:
+            continue
+        # weakly connected
+        adj = {i: set(sup[i]) for i in range(n)}
+        for i in range(n):
+            for j in sup[i]:
+                adj[j].add(i)
+        seen, todo = {0}, [0]
+        while todo:
+            x = todo.pop()
+            for y in adj[x]:
+                if y not in seen:
+                    seen.add(y)
+                    todo.append(y)
+        if len(seen) != n:
+            continue
+        if only is not None and not only(sup):
+            continue
+        graphs.append(sup)
+        if any(len(x) > 1 for x in sup):
+            graphs.append(tuple(tuple(reversed(x)) for x in sup))
+    out = []
+    for c in range(0, len(graphs), per_schema):
+        ents = []
+        for g, sup in enumerate(graphs[c:c + per_schema]):
+            pre = 'g%d_' % (c + g)
+            for i in range(n):
+                ents.append(smodel.Entity('%se%d' % (pre, i), [smodel.Attr('a%d' % i, S('INTEGER'))], supers=['%se%d' % (pre, j) for j in sup[i]]))
+        out.append(smodel.Schema('%s_%d' % (name, c // per_schema), [], ents))
+    return out
 
 
 def family_V():
